@@ -552,21 +552,32 @@ func evalC18Rect(c *rt.Case) (bool, string, string, error) {
 // segment pair over a 4x4 alphabet. The oracle works on the integer pairs
 // (k, y): orientation, on-segment and ray-crossing decisions are invariant
 // under the (positive, per-axis) change of units.
+// the grids of c19UlpGrid, by code: +-1048575 / +-2097151 = one axis in steps
+// of 2^-33 at +-(2^20-1), the other in units (2097151: transposed); +-41 / +-70
+// = one axis in steps of 2^-41 / 2^-70 at the origin, the other in steps of
+// 2^17 (aspect ratios of 2^58 .. 2^87 within magnitude 2^20; negative:
+// transposed)
+var ulpGridBases = []float64{1048575, -1048575, 2097151, -2097151, 41, -41, 70, -70}
+
+func ulpGridMk(base0 float64) func(p exact.P) geometry.Point {
+	fine, coarse, origin, transposed := 1.0/(1<<33), 1.0, base0, false
+	switch {
+	case math.Abs(base0) < 100:
+		fine, coarse, origin, transposed = math.Ldexp(1, -int(math.Abs(base0))), 1<<17, 0, base0 < 0
+	case math.Abs(base0) > 2000000:
+		origin, transposed = math.Copysign(1048575, base0), true
+	}
+	return func(p exact.P) geometry.Point {
+		if transposed {
+			return geometry.Point{X: float64(p.X) * coarse, Y: origin + float64(p.Y)*fine}
+		}
+		return geometry.Point{X: origin + float64(p.X)*fine, Y: float64(p.Y) * coarse}
+	}
+}
+
 func c19UlpGrid(r *rt.Run) {
-	const ulp = 1.0 / (1 << 33)
-	for _, base0 := range []float64{1048575, -1048575, 2097151, -2097151} {
-		// |base| = 2^21-1 stands for "the same, transposed": the ulp-spaced ordinate is y
-		origin, transposed := base0, false
-		if math.Abs(base0) > 2000000 {
-			origin, transposed = math.Copysign(1048575, base0), true
-		}
-		fx := func(k int64) float64 { return origin + float64(k)*ulp }
-		mk := func(p exact.P) geometry.Point {
-			if transposed {
-				return geometry.Point{X: float64(p.X), Y: fx(p.Y)}
-			}
-			return geometry.Point{X: fx(p.X), Y: float64(p.Y)}
-		}
+	for _, base0 := range ulpGridBases {
+		mk := ulpGridMk(base0)
 		base := base0 // recorded in the case
 		var pts []exact.P
 		for k := int64(0); k < 7; k++ {
@@ -626,17 +637,12 @@ func c19UlpGrid(r *rt.Run) {
 }
 
 func evalC19UlpGrid(c *rt.Case) (bool, string, string, error) {
-	const ulp = 1.0 / (1 << 33)
 	if len(c.Nums) < 7 {
 		return false, "", "", fmt.Errorf("malformed case")
 	}
 	base := c.Nums[0]
 	ip := func(i int) exact.P { return exact.P{X: int64(c.Nums[i]), Y: int64(c.Nums[i+1])} }
-	mk := func(p exact.P) geometry.Point { return geometry.Point{X: base + float64(p.X)*ulp, Y: float64(p.Y)} }
-	if math.Abs(base) > 2000000 {
-		b := math.Copysign(1048575, base)
-		mk = func(p exact.P) geometry.Point { return geometry.Point{X: float64(p.X), Y: b + float64(p.Y)*ulp} }
-	}
+	mk := ulpGridMk(base)
 	a, b, p := ip(1), ip(3), ip(5)
 	fs := geometry.Segment{A: mk(a), B: mk(b)}
 	on := exact.OnSeg(p, a, b)
